@@ -8,6 +8,9 @@ use crate::sim::*;
 use serde_json::json;
 use vcore::{Args, Rng, Trace};
 
+/// delivers messages in random order until none is in flight; a conversation that does not end by itself (e.g. the leader
+/// re-sending entries that the follower keeps refusing until the next heartbeat) is cut after `cap` deliveries and goes
+/// on in the next round, after the clocks moved - only a panic ends the run (returns false)
 fn drain(sim: &mut Sim, rng: &mut Rng, trace: &mut Trace, cap: usize) -> bool {
     let mut n = 0;
     while !sim.flight.is_empty() {
@@ -16,7 +19,8 @@ fn drain(sim: &mut Sim, rng: &mut Rng, trace: &mut Trace, cap: usize) -> bool {
         let bad = ev["ev"] == "Panic";
         trace.emit(ev);
         n += 1;
-        if bad || n > cap { return false; }
+        if bad { return false; }
+        if n > cap { return true; }
     }
     true
 }
@@ -69,7 +73,7 @@ pub fn run(args: &Args) {
             n_chaos += 1;
         }
         // ---- heal
-        let mut ok = drain(&mut sim, &mut rng, &mut trace, 2000);
+        let mut ok = drain(&mut sim, &mut rng, &mut trace, 300);
         let t0 = *sim.clock.iter().max().unwrap();
         for c in sim.clock.iter_mut() { *c = t0; }
         let mut appended: Vec<u64> = vec![];
@@ -88,19 +92,23 @@ pub fn run(args: &Args) {
                 let ev = sim.process(node, 0);
                 if ev["branch"] != "None" { trace.emit(ev); }
             }
-            ok = drain(&mut sim, &mut rng, &mut trace, 2000);
+            ok = drain(&mut sim, &mut rng, &mut trace, 300);
             let leaders: Vec<usize> = (0..n).filter(|i| sim.is_leader(*i)).collect();
-            if ok && leaders.len() == 1 && (appended.len() as u64) < max_appends && sim.clock[0] >= append_from && sim.clock[0] <= append_until && rng.chance(1, 6) {
+            if ok && sim.flight.is_empty() && leaders.len() == 1 && (appended.len() as u64) < max_appends && sim.clock[0] >= append_from && sim.clock[0] <= append_until && rng.chance(1, 6) {
                 val += 1;
                 let ev = sim.append(leaders[0], val);
                 ok = ev["ev"] != "Panic";
                 trace.emit(ev);
                 appended.push(val);
                 n_appends += 1;
-                ok = ok && drain(&mut sim, &mut rng, &mut trace, 2000);
+                ok = ok && drain(&mut sim, &mut rng, &mut trace, 300);
             }
         }
-        trace.emit(json!({"ev": "Quiet", "now": sim.clock[0], "since_heal_ms": sim.clock[0] - t0, "appended": appended, "drained": ok}));
+        // the final observation: whatever is still in flight gets a last chance to settle (a conversation that never ends
+        // by itself and was not ended by the timers in the whole healthy period is a finding)
+        if ok { ok = drain(&mut sim, &mut rng, &mut trace, 2000); }
+        let drained = ok && sim.flight.is_empty();
+        trace.emit(json!({"ev": "Quiet", "now": sim.clock[0], "since_heal_ms": sim.clock[0] - t0, "appended": appended, "drained": drained}));
         n_runs += 1;
     }
     n_events += trace.events;
